@@ -21,8 +21,10 @@ def build(desc, s):
     names = ["t%d" % i for i in range(n)]
     cmds = desc["commands"]
     targets = []
-    for t in names:
+    for ti_, t in enumerate(names):
         td = {"path": t}
+        if desc.get("chain") and ti_ > 0:
+            td["uses"] = [names[ti_ - 1]]
         if desc["argdir"] == "custom":
             td["argmaps"] = {"path": "conf/%s-argmaps" % t}
         if desc["cmdsrc"] == "custompath":
@@ -79,6 +81,13 @@ def task(desc):
         if desc["args"] is not None:
             args += ["-t", names[0], "-a"] + desc["args"]
             selected = names[:1]
+        elif desc.get("select") == "last+deps":
+            # only the last target of the chain is named; --deps pulls in everything it depends on
+            args += ["-t", names[-1], "--deps"]
+        elif desc.get("select") == "all+deps":
+            args += ["-t"] + names + ["--deps"]
+        elif desc.get("select") == "explicit":
+            args += ["-t"] + names
         if desc["argmaps_opt"]:
             args += ["-m"] + desc["argmaps_opt"]
         if desc["no_base"]:
@@ -142,6 +151,15 @@ def scenarios(tier):
                         files = [{"base": "args", "m1": "args", "m2": "args" if i % 2 == 0 else None} for i in range(n)]
                         out.append({"targets": n, "commands": cmds, "files": files, "argmaps_opt": o, "no_base": False,
                                     "args": None, "argdir": argdir, "cmdsrc": cmdsrc, "vocab": plain})
+    # (2b) selection modes: dependencies pulled in by --deps (not named in -t) get their argmaps too
+    for select in ("last+deps", "all+deps", "explicit"):
+        for n in (2, 3):
+            for o in (None, ["m1"], ["m2", "m1"]):
+                for nb in (False, True):
+                    for cmds in (["build"], ["build", "test"]):
+                        files = [{"base": "args", "m1": "args", "m2": "args" if i % 2 == 0 else "nocmd"} for i in range(n)]
+                        out.append({"targets": n, "commands": cmds, "files": files, "argmaps_opt": o, "no_base": nb, "args": None,
+                                    "argdir": "default", "cmdsrc": "default", "vocab": plain, "chain": True, "select": select})
     # (3) --args with one command and one explicit target
     arg_sets = [[v] for v in VOCAB if not v.startswith("-")] + [["x", "y z"], ["", ""], ["a\nb", "*"]]
     for a in arg_sets:
@@ -174,7 +192,7 @@ def run(prop, tier):
     agg = {"evaluations": sum(r["evaluations"] for r in results), "distinct_nontrivial": sum(r["nontrivial"] for r in results),
            "violations": [v for r in results for v in r["violations"]], "samples": [r["sample"] for r in results[:: max(1, len(results) // 4)]][:5],
            "exhaustive": True,
-           "rule": "(1) per-target presence lattice {absent, without the command, with args}^3 for base/m1/m2 x --argmaps in {-, m1, m2, m1 m2, m2 m1, m1 missing} x --no-base-argmaps, two targets with complementary files; (2) argmap directory {default, custom} x command source {default dir, custom commands.path, explicit definition path with a decoy in the default dir, empty definition} x argmap orders x 1-2 commands x 1-3 targets; (3) --args values from the argument alphabet with one command and one explicit target; (4) every alphabet string in every slot class and all combinations of a 2-string vocabulary over the four slots; each case = one real run with traced children; oracle: argv[1..] == base ++ argmaps in order ++ args verbatim, cwd == target directory, argv[0] == resolved executable; non-trivial = runs whose expected argv is non-empty"}
+           "rule": "(1) per-target presence lattice {absent, without the command, with args}^3 for base/m1/m2 x --argmaps in {-, m1, m2, m1 m2, m2 m1, m1 missing} x --no-base-argmaps, two targets with complementary files; (2) argmap directory {default, custom} x command source {default dir, custom commands.path, explicit definition path with a decoy in the default dir, empty definition} x argmap orders x 1-2 commands x 1-3 targets; (2b) dependency chains selected by -t <last> --deps, -t <all> --deps and -t <all>; (3) --args values from the argument alphabet with one command and one explicit target; (4) every alphabet string in every slot class and all combinations of a 2-string vocabulary over the four slots; each case = one real run with traced children; oracle: argv[1..] == base ++ argmaps in order ++ args verbatim, cwd == target directory, argv[0] == resolved executable; non-trivial = runs whose expected argv is non-empty"}
     by = {}
     for v in agg["violations"]:
         by[v["sig"]] = by.get(v["sig"], 0) + 1
